@@ -720,7 +720,7 @@ async fn run_server(p: Params) -> Outcome {
 }
 
 pub fn params_json(p: &Params) -> serde_json::Value {
-    json!({"role": if p.client_role {"client"} else {"server"}, "cause": format!("{:?}", p.cause), "scheme": if p.scheme == STOP0 {"stop0"} else {"default"}, "second_opener": p.second_opener})
+    json!({"role": if p.client_role {"client"} else {"server"}, "cause": format!("{:?}", p.cause), "scheme": if p.scheme == STOP0 {"stop0"} else if p.scheme == BRANCHY {"branchy"} else {"default"}, "second_opener": p.second_opener})
 }
 
 pub fn all_params(tier: Tier) -> Vec<(Params, usize)> {
@@ -750,10 +750,10 @@ pub fn all_params(tier: Tier) -> Vec<(Params, usize)> {
             }
             acc += f.len();
         }
-        for call in 0..14 {
+        for call in 0..44 {
             causes.push((Cause::Write { call }, if thorough { 2 } else { 1 }));
         }
-        for call in 0..10 {
+        for call in 0..14 {
             causes.push((Cause::Flush { call }, if thorough { 2 } else { 1 }));
         }
         for j in 0..=nframes {
@@ -783,10 +783,17 @@ pub fn all_params(tier: Tier) -> Vec<(Params, usize)> {
         causes.push((Cause::OwnerClose { at_ms: 700, twice: true, shutdown: ShutdownMode::Never }, 1));
         causes.push((Cause::StalledPeer { close_at_ms: 3000 }, 1));
         for (cause, bound) in causes {
-            let schemes: Vec<&'static str> = if thorough || bound > 0 { vec![STOP0, DEFAULT] } else { vec![STOP0] };
+            let writeish = matches!(cause, Cause::Write { .. } | Cause::Flush { .. });
+            let schemes: Vec<&'static str> = if writeish { vec![STOP0, DEFAULT, BRANCHY] } else if thorough || bound > 0 { vec![STOP0, DEFAULT] } else { vec![STOP0] };
             for scheme in schemes {
-                if !client_role && scheme == DEFAULT {
+                if !client_role && scheme != STOP0 {
                     continue; // servers never pad
+                }
+                if let Cause::Write { call } = &cause
+                    && *call >= 14
+                    && scheme != BRANCHY
+                {
+                    continue; // only the many-writes scheme reaches that many write calls
                 }
                 v.push((
                     Params { client_role, cause: cause.clone(), scheme, second_opener: client_role },
